@@ -686,6 +686,9 @@ pub fn generate_c09(r: &mut Rng, tier: &str, emit: &mut dyn FnMut(String)) {
         };
         emit(gen_history(r, &k));
     }
+    for _ in 0..count(tier, 60, 600) {
+        emit(crate::c18::gen_late_interface_unregister(r));
+    }
 }
 
 /// C06: queries of every kind before, during and after probing
